@@ -27,11 +27,32 @@ def tasks(tier):
                 ("t_step", {"n_grains": 2, "steps": 2, "regime": "min_viscosity"}), ("t_step", {"n_grains": 2, "steps": 2, "regime": "max_viscosity"}),
                 ("t_step", {"n_grains": 2, "steps": 2, "regime": "matrix_diffusion"}), ("t_step", {"n_grains": 2, "steps": 2, "regime": "frictional_yielding"}),
                 ("t_rhs_pure", {"n_grains": 2}), ("t_initial_snapshot", {}), ("t_seed_plumbing", {})] + [
-                    ("t_rate_tangent", {"n_grains": 2, "regime": rg}) for rg in REGIMES]
+                    ("t_rate_tangent", {"n_grains": 2, "regime": rg}) for rg in REGIMES] + _kernel_contract_tasks()
     return [("t_rate_tangent", {"n_grains": n, "regime": rg}) for n in (2, 3) for rg in REGIMES] + [("t_extract_vars", {"n_grains": n}) for n in (1, 2, 3, 4)] + [
         ("t_step", {"n_grains": n, "steps": s, "regime": rg}) for n in (2, 3, 4) for s in (1, 2, 3)
         for rg in ("matrix_dislocation", "frictional_yielding", "matrix_diffusion", "min_viscosity", "max_viscosity")
-    ] + [("t_rhs_pure", {"n_grains": 3}), ("t_initial_snapshot", {}), ("t_seed_plumbing", {})]
+    ] + [("t_rhs_pure", {"n_grains": 3}), ("t_initial_snapshot", {}), ("t_seed_plumbing", {})] + _kernel_contract_tasks()
+
+
+def _kernel_contract_tasks():
+    from . import kernel
+
+    return [("t_kernel_contract", {"phase": ph, "fabric": fb}) for ph, fb in kernel.FABRICS] + [("t_kernel_contract", {"phase": None, "fabric": None})]
+
+
+def t_kernel_contract(sess, phase, fabric):
+    """The stand-in that t_rate_tangent puts in place of the grain kernel in the dislocation-type regimes assumes
+    "rate = A . S with S skew".  That contract is proved here, in the same run, on the real source (the tasks are
+    C03's): on every feasible path of the real _get_rotation_and_strain the returned rate is exactly zero or exactly
+    the result of _get_orientation_change for this grain's orientation (fabric given), and the real
+    _get_orientation_change returns A . Omega with Omega skew for every unit quaternion (phase None).  Without this
+    a kernel that returns a bare spin on a rare path (a grain on which no slip system can be activated) would pass
+    C01 and only show up in C03."""
+    from . import C03
+
+    if phase is None:
+        return C03.t_spin_contract(sess)
+    return C03.t_kernel(sess, phase, fabric, glue_only=True)
 
 
 REGIMES = ("matrix_dislocation", "frictional_yielding", "matrix_diffusion", "min_viscosity", "max_viscosity")
@@ -336,8 +357,55 @@ def replay_drift(case):
     return {"reproduced": bool(problems), "detail": problems or "orientations stay within the stated drift bound"}
 
 
+def replay_noslip_drift(case):
+    """Real updates (JIT on, real LSODA) of textures in which grains have no resolvable slip -- every grain under a
+    rigid rotation, axis-aligned single-orientation textures under shear and compression along the coordinate axes --
+    for every fabric and both dislocation-type regimes, against the drift bound of the property statement."""
+    import numpy as np
+    import pydrex
+    from pydrex import core
+
+    problems = []
+    W = np.array([[0.0, 1.0, -0.6], [-1.0, 0.0, 0.8], [0.6, -0.8, 0.0]])
+    flows = {"rigid rotation": W, "rotation then shear": None, "yz shear": np.array([[0, 0, 0], [0, 0, 2.0], [0, 0, 0]]),
+             "xy shear": np.array([[0, 2.0, 0], [0, 0, 0], [0, 0, 0]]), "xz shear + spin": np.array([[0, 0, 2.0], [0, 0, 0], [0, 0, 0]]) + 0.5 * W,
+             "axial compression + spin": np.diag([0.5, 0.5, -1.0]) + W}
+    shear = np.array([[0, 0, 2.0], [0, 0, 0], [0, 0, 0]])
+    fabrics = [(core.MineralPhase.olivine, f) for f in "ABCDE"] + [(core.MineralPhase.enstatite, "AB")]
+    for (phase, fl), regime, (label, L) in __import__("itertools").product(fabrics, ("matrix_dislocation", "frictional_yielding"), flows.items()):
+        fabric = getattr(core.MineralFabric, ("olivine_" if phase == core.MineralPhase.olivine else "enstatite_") + fl)
+        for texture in ("random", "aligned"):
+            n = 16
+            kw = {} if texture == "random" else {"orientations_init": np.stack([np.eye(3)] * n)}
+            m = pydrex.Mineral(phase=phase, fabric=fabric, regime=getattr(core.DeformationRegime, regime), n_grains=n, seed=5, **kw)
+            params = core.DefaultParams().as_dict()
+            params["number_of_grains"] = n
+            if phase == core.MineralPhase.enstatite:
+                params["phase_assemblage"], params["phase_fractions"] = (core.MineralPhase.enstatite,), (1.0,)
+            Fm, strain = np.eye(3), 0.0
+            for k in range(3):
+                Lk = (W if k < 2 else shear) if L is None else L
+                try:
+                    Fm = m.update_orientations(params, Fm, lambda t, x: Lk, (k * 0.2, (k + 1) * 0.2, lambda t: np.zeros(3)))
+                except Exception as e:  # noqa: BLE001 - valid inputs: an exception from pydrex is a failure of the property
+                    problems.append(f"{phase.name} {fl}, {regime}, {label}, {texture}: update {k + 1} raised {type(e).__name__}: {e}")
+                    break
+                strain += 0.2 * np.abs(np.linalg.eigvalsh((Lk + Lk.T) / 2)).max()
+                A = m.orientations[-1]
+                drift = float(np.abs(np.einsum("gij,gkj->gik", A, A) - np.eye(3)).max())
+                bound = 5e-3 + 1e-3 * ((k + 1) + 2 * strain)
+                if not drift <= bound or not np.all(np.isfinite(A)) or np.linalg.det(A).min() <= 0:
+                    problems.append(f"{phase.name} {fl}, {regime}, {label}, {texture} texture: after {k + 1} update(s) max|A A^T - I| = {drift:.3g} > {bound:.3g}")
+                    break
+        if len(problems) >= 6:
+            break
+    return {"reproduced": bool(problems), "detail": problems or "orientations stay within the stated drift bound (textures with grains that cannot slip)"}
+
+
 def default_cex(name):
     """Generic public-API replay for verdicts that carry no more specific counterexample."""
+    if "returned rate is 0 or the spin routine" in name or "spin contract" in name or "kernel raises" in name:
+        return {"replay": "vf.props.C01:replay_noslip_drift", "case": {}, "cls": {"kind": "grain kernel rate is not the grain's orientation composed with a skew spin"}}
     return {"replay": "vf.props.replays:c01_history", "case": {}, "cls": {"kind": "stored snapshot invalid or altered"}}
 
 
